@@ -297,11 +297,15 @@ def _keep_newest(ctx, mod):
                'nodes', construct='history prune guard')
 
 
+# the table name is a parameter of the statements, however it is put in
+_TABLE = r'(?:\{\w*\}|%s|%\(\w+\)s)'
+
+
 def _schema(ctx, mod, up, app):
     down = mod.functions.get('download_batch')
     ctx.require(down is not None, '_zk.download_batch')
     usrc = ast.unparse(up.node)
-    m = re.search(r'INSERT INTO \{table\} \(\s*([^)]*?)\s*\) VALUES'
+    m = re.search(r'INSERT INTO ' + _TABLE + r' \(\s*([^)]*?)\s*\) VALUES'
                   r'\(([^)]*)\)', usrc)
     ctx.require(m is not None, 'INSERT statement of upload_batch')
     cols = [c.strip().replace('\\n', '').strip()
@@ -313,7 +317,7 @@ def _schema(ctx, mod, up, app):
            marks == len(cols),
            'INSERT columns %s with %d placeholders' % (cols, marks),
            construct='snapshot INSERT columns')
-    m2 = re.search(r'CREATE TABLE \{table\} \(\s*(.*?)\)\s', usrc.replace(
+    m2 = re.search(r'CREATE TABLE ' + _TABLE + r' \(\s*(.*?)\)\s', usrc.replace(
         '\\n', ' '))
     created = []
     if m2:
@@ -323,7 +327,8 @@ def _schema(ctx, mod, up, app):
            'CREATE TABLE columns %s = INSERT columns' % created,
            construct='snapshot table columns')
     dsrc = ast.unparse(down.node)
-    sel = re.search(r'SELECT (\w+) FROM \{table\} WHERE (\w+) GLOB', dsrc)
+    sel = re.search(r'SELECT (\w+) FROM ' + _TABLE + r' WHERE (\w+) GLOB',
+                    dsrc)
     ctx.ob('C18.5', down, None, sel is not None and
            sel.group(1) in cols and sel.group(2) in cols,
            'download selects column %s filtered on %s, both inserted' % (
